@@ -53,10 +53,9 @@ def mul (w n r : Nat) (sat : Bool) (a b : List Nat) : List Nat :=
         let c := if roundUp then BB.inc w M c else c
         BB.assign w n M c
 
-/-- `operator/=` (fixpnt_impl.hpp:508-543): Modulo only; Saturate prints "TBD" and returns the lhs (defect D11).
-    `none` = native division trap (cannot happen: both operands are made non-negative first). -/
-def div (w n r : Nat) (sat : Bool) (a b : List Nat) : Option (List Nat) :=
-  if sat then some a
+/-- `operator/=` (fixpnt_impl.hpp:510-545): Modulo only; Saturate prints "TBD" and returns the lhs (defect D11). -/
+def div (w n r : Nat) (sat : Bool) (a b : List Nat) : List Nat :=
+  if sat then a
   else
     let positive := (!BB.sign w n a && !BB.sign w n b) || (BB.sign w n a && BB.sign w n b)
     let A := 2 * n + 2 * r + 2 * n
@@ -66,18 +65,18 @@ def div (w n r : Nat) (sat : Bool) (a b : List Nat) : Option (List Nat) :=
     let divisor := BB.assign w A n b
     let divisor := if BB.sign w A divisor then BB.twosC w A divisor else divisor
     let divisor := BB.shl w A divisor (r + n : Nat)
-    match BB.divrem w A dividend divisor false with
-    | none => none
-    | some q =>
-      let roundUp := BB.roundingMode w A q n
-      let q := BB.shr w A q n
-      let q := if roundUp then BB.inc w A q else q
-      some (BB.assign w n A (if positive then q else BB.twosC w A q))
+    let q := BB.divrem w A dividend divisor false
+    let roundUp := BB.roundingMode w A q n
+    let q := BB.shr w A q n
+    let q := if roundUp then BB.inc w A q else q
+    BB.assign w n A (if positive then q else BB.twosC w A q)
 
-/-- unary `operator-` (fixpnt_impl.hpp:382-389): two's complement, maxneg is replaced by its flip (= maxpos) -/
-def neg (w n : Nat) (a : List Nat) : List Nat :=
+/-- unary `operator-` (fixpnt_impl.hpp:382-391): two's complement; in Saturate arithmetic maxneg is replaced by its flip
+    (= maxpos), in Modulo arithmetic it stays maxneg (repaired in "fix: fixpnt unary minus in Modulo arithmetic must wrap
+    maxneg to maxneg, not flip it to maxpos": the flip used to happen in both modes) -/
+def neg (w n : Nat) (sat : Bool) (a : List Nat) : List Nat :=
   let t := BB.twosC w n a
-  if t == BB.maxneg w n then BB.flip w n t else t
+  if sat && t == BB.maxneg w n then BB.flip w n t else t
 
 /-- `operator++`: `*this += fixpnt(setbits(1))` in the configuration's arithmetic -/
 def inc (w n : Nat) (sat : Bool) (a : List Nat) : List Nat := add w n sat a (BB.setbits w n 1)
